@@ -520,6 +520,53 @@ theorem resolveBytes_link (src : NFS) (fuel : Nat) (p t : Str) (h : src.get p = 
 example : persistRaw [(['l'], .link ['m']), (['m'], .link ['f']), (['f'], .file ['x', 'y'])] 40 [] ['l'] ['d']
     = some [(['d'], .file ['x', 'y'])] := by decide
 
+/-! ### 2e. the document codec -/
+
+/-- what `os.fsdecode` / surrogateescape put into a `str`: valid code points, no HIGH surrogate (an
+    undecodable byte b becomes the LOW surrogate 0xDC00 + b) -/
+def FsText (s : CodePoints) : Prop := ∀ c ∈ s, c < 0x110000 ∧ isHigh c = false
+
+/-- `json_roundtrip`: text written into a metadata document with ASCII escapes and read back is the
+    SAME list of code points — for every text without a high surrogate: ASCII, any Unicode up to
+    0x10FFFF (astral characters travel as a pair and are re-joined), and the lone low surrogates of
+    non-UTF-8 file names, command lines, arguments, save_as names and error texts. -/
+theorem json_roundtrip (s : CodePoints) (h : FsText s) : jsonUnescape (jsonEscape s) = s := by
+  induction s with
+  | nil => rfl
+  | cons c t ih =>
+    have hc := h c (by simp)
+    have ht : FsText t := fun x hx => h x (List.mem_cons_of_mem _ hx)
+    have iht := ih ht
+    by_cases hlt : c < 65536
+    · have he : jsonEscape (c :: t) = c :: jsonEscape t := by simp [jsonEscape, hlt]
+      rw [he]
+      cases hj : jsonEscape t with
+      | nil =>
+        rw [hj] at iht
+        simp only [jsonUnescape] at iht ⊢
+        rw [← iht]
+      | cons v r =>
+        have hu : jsonUnescape (c :: v :: r) = c :: jsonUnescape (v :: r) := by simp [jsonUnescape, hc.2]
+        rw [hu, ← hj, iht]
+    · have he : jsonEscape (c :: t) =
+          (55296 + (c - 65536) / 1024) :: (56320 + (c - 65536) % 1024) :: jsonEscape t := by simp [jsonEscape, hlt]
+      have a1 : 55296 ≤ 55296 + (c - 65536) / 1024 := by omega
+      have b1 : 55296 + (c - 65536) / 1024 < 56320 := by omega
+      have a2 : 56320 ≤ 56320 + (c - 65536) % 1024 := by omega
+      have b2 : 56320 + (c - 65536) % 1024 < 57344 := by omega
+      have h1 : isHigh (55296 + (c - 65536) / 1024) = true := by simp [isHigh, a1, b1]
+      have h2 : isLow (56320 + (c - 65536) % 1024) = true := by simp [isLow, a2, b2]
+      have hv : 65536 + (55296 + (c - 65536) / 1024 - 55296) * 1024 + (56320 + (c - 65536) % 1024 - 56320) = c := by omega
+      rw [he]
+      simp only [jsonUnescape, h1, h2, Bool.and_self, if_true, iht, hv]
+
+example : jsonEscape [0x63, 0xDCE9, 0x1F600] = [0x63, 0xDCE9, 0xD83D, 0xDE00] ∧
+    jsonUnescape [0x63, 0xDCE9, 0xD83D, 0xDE00] = [0x63, 0xDCE9, 0x1F600] := by decide
+
+/-- the hypothesis is needed: a lone HIGH surrogate followed by a lone low one comes back as one astral
+    code point (json.loads(json.dumps('\ud83d\ude00')) has length 1) -/
+theorem json_roundtrip_needs_no_high : jsonUnescape (jsonEscape [0xD83D, 0xDE00]) ≠ [0xD83D, 0xDE00] := by decide
+
 /-! ### 3. one provider end to end -/
 
 /-- Text kinds (text file, command, datasource, both container kinds): a provider whose content is
